@@ -8,7 +8,18 @@
 void *__real_malloc(size_t); void *__real_calloc(size_t, size_t); void __real_free(void *);
 #define hmalloc(n) __real_malloc(n)
 #define hcalloc(a, b) __real_calloc(a, b)
-#define hfree(p) __real_free(p)
+/* input buffers may be handed to the library at a deliberately misaligned address (LWV_MISALIGN = k: the input starts
+ * k octets into its block, the k leading octets are poisoned under ASan); hfree maps such a pointer back to its block */
+extern unsigned char *g_in_ptr, *g_in_base;
+static inline void hfree(void *p) { if (p && p == (void *) g_in_ptr && g_in_base) { void *b = g_in_base; g_in_base = NULL; g_in_ptr = NULL; __real_free(b); } else __real_free(p); }
+#if defined(__SANITIZE_ADDRESS__)
+#include <sanitizer/asan_interface.h>
+#define LWV_POISON(p, n) ASAN_POISON_MEMORY_REGION(p, n)
+#define LWV_UNPOISON(p, n) ASAN_UNPOISON_MEMORY_REGION(p, n)
+#else
+#define LWV_POISON(p, n) ((void) 0)
+#define LWV_UNPOISON(p, n) ((void) 0)
+#endif
 static inline char *hstrdup(const char *s) { size_t l = strlen(s) + 1; char *d = __real_malloc(l); memcpy(d, s, l); return d; }
 /* hex helpers; "-" denotes the empty byte string */
 static inline int hexval(char c) { return c >= '0' && c <= '9' ? c - '0' : c >= 'a' && c <= 'f' ? c - 'a' + 10 : c >= 'A' && c <= 'F' ? c - 'A' + 10 : -1; }
@@ -16,23 +27,25 @@ static inline int hexval(char c) { return c >= '0' && c <= '9' ? c - '0' : c >= 
  * For the empty string a 1-byte block is returned and *n = 0 (hmalloc(0) may alias). */
 /* environment knobs (C13): LWV_TRAIL = extra bytes (0xFF) allocated after every input buffer,
  * LWV_PREFILL = byte the output objects are pre-filled with */
-extern size_t g_trail; extern int g_prefill;
+extern size_t g_trail, g_misalign; extern int g_prefill;
 /* copy of the most recent input buffer: parsers take `const` inputs, INCHK aborts when one was modified
  * (stated bytes or the trailing environment bytes) */
-extern unsigned char *g_in_ptr, *g_in_copy; extern size_t g_in_len;
-static inline void in_register(unsigned char *b, size_t tot) {
+extern unsigned char *g_in_copy; extern size_t g_in_len;
+static inline void in_register(unsigned char *base, unsigned char *b, size_t tot) {
     if (g_in_copy) __real_free(g_in_copy);
-    g_in_copy = __real_malloc(tot ? tot : 1); memcpy(g_in_copy, b, tot); g_in_ptr = b; g_in_len = tot;
+    if (g_in_base) { LWV_UNPOISON(g_in_base, g_misalign); __real_free(g_in_base); }   /* an op that never released its input */
+    g_in_copy = __real_malloc(tot ? tot : 1); memcpy(g_in_copy, b, tot); g_in_ptr = b; g_in_len = tot; g_in_base = base;
+    if (base != b) LWV_POISON(base, (size_t) (b - base));
 }
 #define INCHK(buf) do { if ((buf) == g_in_ptr && memcmp((buf), g_in_copy, g_in_len)) { fflush(stdout); fprintf(stderr, "ERROR: AddressSanitizer: INPUT-MODIFIED\n"); abort(); } } while (0)
 static inline unsigned char *unhex(const char *s, size_t *n) {
-    if (!s || !strcmp(s, "-")) { *n = 0; unsigned char *e = hmalloc(1 + g_trail); memset(e, 0xFF, 1 + g_trail); in_register(e, 1 + g_trail); return e; }
+    if (!s || !strcmp(s, "-")) { *n = 0; unsigned char *e0 = hmalloc(g_misalign + 1 + g_trail), *e = e0 + g_misalign; memset(e, 0xFF, 1 + g_trail); in_register(e0, e, 1 + g_trail); return e; }
     size_t l = strlen(s) / 2;
-    unsigned char *b = hmalloc((l ? l : 1) + g_trail);
+    unsigned char *b0 = hmalloc(g_misalign + (l ? l : 1) + g_trail), *b = b0 + g_misalign;
     if (g_trail) memset(b + l, 0xFF, g_trail);
     for (size_t i = 0; i < l; i++) b[i] = (unsigned char) (hexval(s[2 * i]) * 16 + hexval(s[2 * i + 1]));
     *n = l;
-    in_register(b, l + g_trail);
+    in_register(b0, b, l + g_trail);
     return b;
 }
 static inline void phex(const unsigned char *p, size_t n) {
